@@ -76,6 +76,13 @@ def gen_spec(rng, trait=None):
                 f["mode"] = "by"
             elif trait == "Default" and r < 0.35 and FTYPES[ft][3] is not None:
                 f["mode"] = "value"
+            if trait in CMP_ATTR and f["mode"] in ("ignore", "key", "by"):
+                # any helper attribute that affects the trait may carry the customisation (Hash takes keys, not `by`, from eq/ord)
+                from . import cmpmodel as M
+                cands = list(M.AFFECTS[trait])
+                if trait == "Hash" and f["mode"] == "by":
+                    cands = ["hash"]
+                f["helper"] = rng.choice(cands)
             fs.append(f)
         variants.append({"style": style, "fields": fs})
     if trait == "Debug":
@@ -127,18 +134,21 @@ def generics(spec):
     return g, ga, wh, used, lt, assoc
 
 
+BY_FN = {"partial_eq": "g_eq", "eq": "g_eq", "partial_ord": "g_pcmp", "ord": "g_cmp", "hash": "g_hash"}
+
+
 def field_attr(spec, f):
     t = spec["trait"]
     m = f["mode"]
+    h = f.get("helper") or CMP_ATTR.get(t)
     if m == "ignore":
-        return "#[debug(ignore)] " if t == "Debug" else f"#[{CMP_ATTR[t]}(ignore)] "
+        return "#[debug(ignore)] " if t == "Debug" else f"#[{h}(ignore)] "
     if m == "transparent":
         return "#[debug(transparent)] "
     if m == "key":
-        return f"#[{CMP_ATTR[t]}(key = {D}g_key(&$))] "
+        return f"#[{h}(key = {D}g_key(&$))] "
     if m == "by":
-        fn = {"PartialEq": "g_eq", "Eq": "g_eq", "PartialOrd": "g_pcmp", "Ord": "g_cmp", "Hash": "g_hash"}[t]
-        return f"#[{CMP_ATTR[t]}(by = {D}{fn})] "
+        return f"#[{h}(by = {D}{BY_FN[h]})] "
     if m == "value":
         return f"#[default({FTYPES[f['ft']][3]})] "
     return ""
@@ -322,7 +332,7 @@ def render(spec, with_dx=True):
 
 def describe(spec):
     return (f"{spec['trait']} {spec['kind']} " + "|".join(
-        v["style"] + "[" + ",".join(f["ft"] + (":" + f["mode"] if f["mode"] != "plain" else "") for f in v["fields"]) + "]"
+        v["style"] + "[" + ",".join(f["ft"] + (":" + f["mode"] + ("@" + f["helper"] if f.get("helper") else "") if f["mode"] != "plain" else "") for f in v["fields"]) + "]"
         for v in spec["variants"]) + (f" dv={spec['dv']}" if spec["trait"] == "Default" and spec["kind"] == "enum" else ""))
 
 
@@ -364,6 +374,16 @@ def core(rng):
             me = {"ft": ft, "mode": mode}
             specs.append({"trait": t, "kind": "struct", "entry": "attr" if k % 2 else "derive", "where_tr": False, "dv": 0,
                           "variants": [{"style": "named", "fields": [other, me] if mode != "transparent" else [me, other]}]})
+    from . import cmpmodel as M
+    for t in CMP_ATTR:
+        for h in M.AFFECTS[t]:
+            for mode in ("ignore", "key", "by"):
+                if t == "Hash" and mode == "by" and h != "hash":
+                    continue
+                k += 1
+                specs.append({"trait": t, "kind": "struct" if k % 2 else "enum", "entry": "attr" if k % 4 < 2 else "derive", "where_tr": False, "dv": 0,
+                              "variants": [{"style": "named", "fields": [{"ft": "U", "mode": "plain"}, {"ft": "NeverT", "mode": mode, "helper": h},
+                                                                          {"ft": "VecT", "mode": mode, "helper": h}]}]})
     # Default on enums: only the default variant counts
     for dv in (0, 1, 2):
         specs.append({"trait": "Default", "kind": "enum", "entry": "attr", "where_tr": False, "dv": dv, "variants": [
